@@ -26,6 +26,7 @@ func C10(c *core.Ctx) {
 	c10SignedFlag(c)
 	c10ContextPropagation(c)
 	c10UnsignThenValidate(c)
+	c09SignParseAlgorithms(c, "C10-R8")
 	// R6: a verification that succeeds has verified every signature (C09-R4, re-reported): the
 	// outcome of verify after any history of sign / edit / sign does not depend on which
 	// signature happens to come first
